@@ -486,12 +486,15 @@ func c05(r *h.Result, rng *h.Rng, tier string, replay string) error {
 		return c05Replay(r, replay, deadline)
 	}
 	nStruct, nRaw, batchSize, bombs := 1100, 4000, 40, false
+	nPre, nDecLen := 300, 3000
 	oddPct := 65
 	switch tier {
 	case "thorough":
 		nStruct, nRaw, bombs = 22000, 100000, true
+		nPre, nDecLen = 6000, 100000
 	case "search":
 		nStruct, nRaw, bombs = 11000, 30000, true
+		nPre, nDecLen = 3000, 20000
 		oddPct = 90
 	}
 	// staleness of the hand-made fault placement (Gen.BodyHashes vs the recorded hashes)
@@ -596,6 +599,14 @@ func c05(r *h.Result, rng *h.Rng, tier string, replay string) error {
 		if strings.HasSuffix(model[i], "r0") {
 			r.Count("model:non-rectangular-after-request")
 		}
+	}
+
+	// ---- pre-request chain (c05_pre.go)
+	if err := c05DecLenStream(r, rng.Fork(), nDecLen); err != nil {
+		return err
+	}
+	if err := c.preStream(rng.Fork(), nPre, bombs, batchSize); err != nil {
+		return err
 	}
 
 	// ---- raw stream (fuzzing)
